@@ -77,7 +77,9 @@ def read_accessors():
         if isinstance(st, ast.Expr) and isinstance(st.value, ast.Constant):
             continue
         ok = (isinstance(st, ast.If) and isinstance(st.test, ast.Name) and len(st.body) == 1
-              and isinstance(st.body[0], ast.For) and len(st.body[0].body) == 1)
+              and isinstance(st.body[0], ast.For) and len(st.body[0].body) == 1
+              and isinstance(st.body[0].iter, ast.Name) and st.body[0].iter.id == "all_props"
+              and not st.orelse)
         if ok:
             call = st.body[0].body[0]
             ok = (isinstance(call, ast.Expr) and _callname(call.value) == "delattr"
@@ -91,6 +93,9 @@ def read_accessors():
     inst = []
     for st in dl.body:
         if isinstance(st, ast.If) and isinstance(st.test, ast.Name) and st.test.id in ("element", "isotope", "ion"):
+            if not (len(st.body) == 1 and isinstance(st.body[0], ast.For) and isinstance(st.body[0].iter, ast.Name)
+                    and st.body[0].iter.id == "all_props"):
+                raise Unreadable("delayed_load: properties are not installed for every name of all_props")
             for n in ast.walk(st):
                 if _callname(n) == "setattr" and isinstance(n.args[0], ast.Name):
                     inst.append((st.test.id, CLASSES.get(n.args[0].id)))
